@@ -102,7 +102,14 @@ class NarwhalsMaterializer(FormulaMaterializer):
         if drop_rows:
             values = drop_nulls(values, indices=drop_rows)
         if nw.dependencies.is_narwhals_series(values):
-            values = values.to_pandas()
+            native = nw.to_native(values)
+            # narwhals casts Arrow dictionary arrays to strings, which would lose
+            # the declared categories (their order and any unobserved level).
+            values = (
+                native.to_pandas()
+                if nw.dependencies.is_pyarrow_chunked_array(native)
+                else values.to_pandas()
+            )
 
         return as_columns(
             encode_contrasts(
